@@ -219,8 +219,9 @@ pub fn install_panic_capture(quiet: bool) {
 			in_library,
 			backtrace_head: frames,
 		};
+		let harness_panic = rec.location.contains("src/bin/") || rec.location.starts_with("src/") || rec.location.contains("/harness/");
 		PANICS.lock().unwrap_or_else(|e| e.into_inner()).push(rec);
-		if !quiet {
+		if !quiet || harness_panic {
 			prev(info);
 		}
 	}));
